@@ -3269,7 +3269,32 @@ def r02_9_more(cx, R, S):
             arr_before = any(H.const_value(y) == "[" for y in H.walk(wide_if["cond"]) if y.get("k") == "lit")
             got = (t_inc, e_inc, arr_in_else)
             ok = t_inc == [2] and e_inc == [1] and arr_in_else and not arr_before
-        R.inst("R02.9", "argsize:D/J=2,others=1,arrays=1", ok, sp=gas["sp"], expect="+2 when the parameter starts with D or J, otherwise (after skipping `[`) +1", got=got)
+        # decided by evaluation (shape-independent): the function is interpreted on probe descriptors and must return the JVMS slot count
+        # (1 for the receiver, 2 per long/double, 1 per other parameter incl. arrays), Err beyond 255
+        from lib import c19_util as IU
+        probes = [("()V", 1), ("(I)V", 2), ("(J)V", 3), ("(D)V", 3), ("([J)V", 2), ("([[D)V", 2), ("(Ljava/lang/Object;)V", 2),
+                  ("([Ljava/lang/String;J)I", 4), ("(IJ)V", 4), ("(DLa/B;[[I[JZ)La/B;", 7), ("(" + "J" * 127 + ")V", 255), ("(" + "I" * 254 + ")V", 255),
+                  ("(" + "J" * 127 + "I)V", None), ("(" + "I" * 255 + ")V", None)]
+        bad, unknown = [], None
+        for text, want in probes:
+            try:
+                r = IU.Interp(duke, budget=600000).run(gas, [IU.St(gas["impl_ty"], {"0": IU.S(text)})])
+            except IU.Unknown as e:
+                unknown = str(e)[:200]
+                break
+            except RecursionError:
+                unknown = "evaluation recursion too deep"
+                break
+            g = r[2][0][1] if (isinstance(r, tuple) and r[0] == "v" and r[1] == "Ok" and r[2] and r[2][0][0] == "i") else ("Err" if isinstance(r, tuple) and r[0] == "v" and r[1] == "Err" else "?")
+            if g != (want if want is not None else "Err"):
+                bad.append((text if len(text) < 30 else text[:10] + "..(%d)" % len(text), "want %s" % (want if want is not None else "Err"), "got %s" % (g,)))
+        if unknown is None:
+            R.inst("R02.9", "argsize:D/J=2,others=1,arrays=1", not bad, sp=gas["sp"],
+                   expect="JVMS 6.5 invokeinterface count: 1 + 2 per long/double + 1 per other parameter (arrays 1); more than 255 is an error",
+                   got=bad[:6] or "14 probe descriptors agree")
+        else:
+            R.inst("R02.9", "argsize:D/J=2,others=1,arrays=1", ok, sp=gas["sp"], expect="+2 when the parameter starts with D or J, otherwise (after skipping `[`) +1",
+                   got={"shape": got, "evaluation": unknown})
 
 
 def r02_misc(cx, R, S):
